@@ -215,10 +215,10 @@ PROPERTY_META = {
         unverified=["allocation sites inside build_pl / make_parse / error_recovery and the per-parse tables: that the containers satisfy their invariants at those sites is assumed; the unwinding branch they jump to is verified (API.parse.unwind)",
                     "F11: set_sgrammar's error branch deletes containers that were not created yet (known finding)"],
         explanation="C17: exit protocol: every allocation site under contract carries the exit assertion; the four unwinding branches are verified from any state satisfying it."),
-    "C10": dict(trusted_base=TB_COMMON, assumptions=A_COMMON + ["R5: the first region of yaep_read_grammar is cut out mechanically on every run (anchors must fire); composition with the rest of the function is sequential",
-                                                  "symbol-table lookups answer 'found' iff the name/code was added before (C19 + symb_add_term, composed on paper)"],
-        unverified=["rule intake (second region of yaep_read_grammar): translation checks, implicit start rule", "set_empty_access_derives, set_loop_p, check_grammar (flags and verdicts)", "create_first_follow_sets"],
-        explanation="C10: terminal intake region with witness conditions per error code and completeness on the normal path."),
+    "C10": dict(trusted_base=TB_COMMON, assumptions=A_COMMON + ["R5-R8: yaep_read_grammar is cut into four regions mechanically on every run (anchors must fire; together they are the whole function); the hand-over of state from one region to the next is checked by reading",
+                                                  "A7: symbol-table lookups answer 'found' iff the name/code was added before (HT.* of C19 + T.copy.term / T.copy.nonterm / T.find.repr / TOK.find, composed on paper)"],
+        unverified=["set_empty_access_derives, set_loop_p: the flags as least fixpoints (bounded native stand-in RG.verdict.native only)", "create_first_follow_sets", "rules with more than 8 right-hand side names or translation numbers (RG.rule's array cap)"],
+        explanation="C10: every region of yaep_read_grammar under contract (witness condition per error code, completeness on the normal path, exact rule record), check_grammar's verdicts given the flags."),
     "C11": dict(trusted_base=TB_COMMON + ["models/ctype_table.h (glibc C-locale classification table)", "models/qsort_model.h (insertion sort) for the bounded code-assignment set"], assumptions=A_COMMON,
         unverified=["the LALR automaton generated by bison and its semantic actions (token text -> records)", "token text accumulation on the object stack inside yylex (stated drop; OS.top.* cover the macros)"],
         explanation="C11: lexer (all loops closed), front-end protocol of yaep_parse_grammar, replay callbacks; implicit code assignment bounded."),
